@@ -98,3 +98,20 @@ Theorem c27_nonvacuous :
            RCtl (Some (7, 8)); RBytes (Some [14; 15])]).
 Proof. exact c27_nonvacuous_lemma. Qed.
 Print Assumptions c27_nonvacuous.
+
+(* The hypotheses do not restrict control values below the range of the API type: sender/target
+   8193 (larger than any message size), 2^31 (a negative int32 in the index record's _size field)
+   and 2^32-1 are admitted, and the control record after the reopen is the last completed one. *)
+Theorem c27_control_range_nonvacuous :
+  ops_wf (cb_pre ++ OReopen :: cb_after) = true /\ zero_free (cb_pre ++ OReopen :: cb_after) = true /\
+  never_lost cb_pre = true /\ no_reopen cb_after = true /\
+  crash_between file_empty cb_pre 8 = true /\
+  c27_result cb_pre 8 cb_after =
+    Some (3%nat, [RBool true; RBool true; RBool true],
+          [RCtl (Some (65536, 2147483648)); RBytes (Some [1; 2]); RBool true;
+           RCtl (Some (8192, 4294967295))]) /\
+  c27_result cb_pre 2 cb_after =
+    Some (1%nat, [RBool true],
+          [RCtl (Some (4294967295, 8193)); RBytes None; RBool true; RCtl (Some (8192, 4294967295))]).
+Proof. exact c27_control_range_nonvacuous_lemma. Qed.
+Print Assumptions c27_control_range_nonvacuous.
